@@ -149,6 +149,7 @@ type Auth struct {
 	Secret string
 	Extra  url.Values // e.g. client_assertion
 	Query  url.Values // parameters put into the URL query string of the POST request (not the body)
+	Lang   string     // Accept-Language header
 }
 
 func BasicAuth(id, secret string) Auth { return Auth{Mode: "basic", ID: id, Secret: secret} }
@@ -177,6 +178,9 @@ func (a Auth) apply(req *http.Request, form url.Values) {
 	for k, vs := range a.Extra {
 		form[k] = vs
 	}
+	if a.Lang != "" {
+		req.Header.Set("Accept-Language", a.Lang)
+	}
 }
 
 func postReq(path string, form url.Values, a Auth) *http.Request {
@@ -202,6 +206,9 @@ func postReq(path string, form url.Values, a Auth) *http.Request {
 type TokenOpts struct {
 	Session  *Sess
 	GrantAll bool // grant every requested scope/audience (client_credentials, password, jwt-bearer)
+	// GrantRequested: an integrator that grants whatever the access request says was requested, for every grant type
+	// (the pattern of the reference token endpoint: `if accessRequest.GetRequestedScopes().Has("fosite") { GrantScope }`)
+	GrantRequested bool
 }
 
 func (w *World) Token(form url.Values, a Auth) *Obs {
@@ -225,7 +232,7 @@ func (w *World) TokenWith(form url.Values, a Auth, opt TokenOpts) *Obs {
 	}
 	if opt.GrantAll {
 		gt := ar.GetGrantTypes()
-		if gt.ExactOne("client_credentials") || gt.ExactOne("password") || gt.ExactOne("urn:ietf:params:oauth:grant-type:jwt-bearer") {
+		if opt.GrantRequested || gt.ExactOne("client_credentials") || gt.ExactOne("password") || gt.ExactOne("urn:ietf:params:oauth:grant-type:jwt-bearer") {
 			for _, s := range ar.GetRequestedScopes() {
 				ar.GrantScope(s)
 			}
@@ -305,6 +312,7 @@ func errString(err error) string {
 // ---- authorization endpoint
 
 type AuthzOpts struct {
+	Lang        string // Accept-Language header
 	Subject     string
 	GrantScopes func(requested []string) []string // nil => all requested
 	GrantAud    func(requested []string) []string // nil => all requested
@@ -325,6 +333,9 @@ func (w *World) AuthorizeRaw(rawQuery string, opt AuthzOpts) *Obs {
 }
 
 func (w *World) authorizeReq(req *http.Request, opt AuthzOpts) *Obs {
+	if opt.Lang != "" {
+		req.Header.Set("Accept-Language", opt.Lang)
+	}
 	rec := httptest.NewRecorder()
 	ctx := w.newCtx()
 	ar, err := w.Prov.NewAuthorizeRequest(ctx, req)
